@@ -54,14 +54,15 @@ func (c17Engine) Generate(seed uint64, tier string) *simrun.Case {
 	r := sim.NewRand(seed)
 	c := &simrun.Case{Prop: "C17", Engine: "tx-fault", Seed: seed, Knobs: map[string]int64{"fault_call": -1, "fault_kind": 0}}
 	n := 1 + r.Intn(6)
-	ops := []string{"insert", "insert", "update", "update", "delete", "select", "readrows", "symbols", "sql", "drop", "insert-bad", "update-bad"}
+	ops := []string{"insert", "insert", "update", "update", "delete", "select", "readrows", "symbols", "sql", "sql", "drop", "insert-bad", "update-bad",
+		"rows-dml", "sql-txctl"}
 	for i := 0; i < n; i++ {
 		k := ops[r.Intn(len(ops))]
 		cond := int64(0)
 		if r.Chance(1, 3) {
 			cond = int64(1 + r.Intn(5))
 		}
-		c.Ops = append(c.Ops, simrun.Op{K: k, A: []int64{int64(r.Intn(2)), int64(r.Intn(4)), int64(r.Intn(4)), cond}})
+		c.Ops = append(c.Ops, simrun.Op{K: k, A: []int64{int64(r.Intn(2)), int64(r.Intn(8)), int64(r.Intn(4)), cond}})
 	}
 	return c
 }
@@ -110,7 +111,17 @@ func c17Payload(c *simrun.Case) []defs.TXOperation {
 		case "sql":
 			t.Opcode = "sql"
 			t.Table = ""
-			t.SQL = fmt.Sprintf("update items set qty = qty + %d where id = 2", v+1)
+			t.SQL = c17SQL(i, v)
+		case "rows-dml":
+			// a row-returning statement that also changes data (doRows: "SELECT (or other row-returning) query")
+			t.Opcode = "readrows"
+			t.Table = ""
+			t.SQL = c17RowsDML(i, v)
+		case "sql-txctl":
+			// transaction-control text inside the script
+			t.Opcode = "sql"
+			t.Table = ""
+			t.SQL = c17TxCtl[int(v)%len(c17TxCtl)]
 		case "drop":
 			t.Opcode = "drop"
 		}
@@ -129,6 +140,139 @@ func c17Payload(c *simrun.Case) []defs.TXOperation {
 		tasks = append(tasks, t)
 	}
 	return tasks
+}
+
+var c17TxCtl = []string{"COMMIT", "ROLLBACK", "BEGIN", "SAVEPOINT s1", "END", "update items set qty = 77 where id = 3; COMMIT", "commit transaction", "ROLLBACK TO s1"}
+
+func c17SQL(i int, v int64) string {
+	switch v % 4 {
+	case 1:
+		return fmt.Sprintf("insert into stock (id, name, qty) values (%d, 'sql%d', %d)", 300+i, i, v)
+	case 2:
+		return "delete from stock where id = 2"
+	case 3:
+		return "select id, name from items where id > 1"
+	}
+	return fmt.Sprintf("update items set qty = qty + %d where id = 2", v+1)
+}
+
+func c17RowsDML(i int, v int64) string {
+	switch v % 3 {
+	case 1:
+		return "delete from items where id = 3 returning id"
+	case 2:
+		return fmt.Sprintf("insert into stock (id, name, qty) values (%d, 'ret%d', 7) returning id", 400+i, i)
+	}
+	return "update stock set qty = qty + 1 where id = 1 returning id, qty"
+}
+
+// c17Model is an independent reference for "every operation applied": the tables after applying the
+// payload's operations one after the other to the seeded tables, in the format of c17Dump. ok is false
+// when the payload contains an operation that cannot be applied at all (or whose complete application
+// is not defined), in which case only the differential oracle is used.
+func c17Model(c *simrun.Case) (state string, ok bool) {
+	type row struct {
+		id   int64
+		name string
+		qty  int64
+	}
+	tabs := map[string][]row{
+		"items": {{1, "one", 1}, {2, "two", 2}, {3, "three", 3}},
+		"stock": {{1, "s-one", 10}, {2, "s-two", 20}},
+	}
+	dropped := map[string]bool{}
+	names := []string{"items", "stock"}
+	match := func(fv int64, r row) bool {
+		switch fv % 4 {
+		case 0:
+			return r.id == 1
+		case 1:
+			return r.qty > 1
+		case 2:
+			return r.id == 999
+		}
+		return true
+	}
+	upd := func(tb string, pred func(row) bool, f func(*row)) {
+		for i := range tabs[tb] {
+			if pred(tabs[tb][i]) {
+				f(&tabs[tb][i])
+			}
+		}
+	}
+	del := func(tb string, pred func(row) bool) {
+		var keep []row
+		for _, r := range tabs[tb] {
+			if !pred(r) {
+				keep = append(keep, r)
+			}
+		}
+		tabs[tb] = keep
+	}
+	for i, op := range c.Ops {
+		tb := names[op.Arg(0)%2]
+		v, fv := op.Arg(1), op.Arg(2)
+		uses := tb
+		switch op.K {
+		case "sql":
+			uses = []string{"items", "stock", "stock", "items"}[v%4]
+		case "rows-dml":
+			uses = []string{"stock", "items", "stock"}[v%3]
+		case "symbols", "sql-txctl":
+			uses = ""
+		}
+		if uses != "" && dropped[uses] {
+			return "", false
+		}
+		switch op.K {
+		case "insert":
+			tabs[tb] = append(tabs[tb], row{int64(100 + i), fmt.Sprintf("new%d", v), v})
+		case "update":
+			upd(tb, func(r row) bool { return match(fv, r) }, func(r *row) { r.qty = 50 + v })
+		case "delete":
+			del(tb, func(r row) bool { return match(fv, r) })
+		case "sql":
+			switch v % 4 {
+			case 0:
+				upd("items", func(r row) bool { return r.id == 2 }, func(r *row) { r.qty += v + 1 })
+			case 1:
+				tabs["stock"] = append(tabs["stock"], row{int64(300 + i), fmt.Sprintf("sql%d", i), v})
+			case 2:
+				del("stock", func(r row) bool { return r.id == 2 })
+			}
+		case "rows-dml":
+			switch v % 3 {
+			case 0:
+				upd("stock", func(r row) bool { return r.id == 1 }, func(r *row) { r.qty++ })
+			case 1:
+				del("items", func(r row) bool { return r.id == 3 })
+			case 2:
+				tabs["stock"] = append(tabs["stock"], row{int64(400 + i), fmt.Sprintf("ret%d", i), 7})
+			}
+		case "drop":
+			dropped[tb] = true
+		case "insert-bad", "update-bad":
+			return "", false
+		case "sql-txctl":
+			if c17TxCtl[int(v)%len(c17TxCtl)] != "SAVEPOINT s1" {
+				return "", false // a script that ends its own transaction has no defined complete application
+			}
+		}
+	}
+	var out []string
+	for _, tb := range names {
+		if dropped[tb] {
+			out = append(out, tb+": <dropped>")
+			continue
+		}
+		var lines []string
+		for _, r := range tabs[tb] {
+			lines = append(lines, fmt.Sprintf("(%v,%v,%v)", r.id, r.name, r.qty))
+		}
+		sort.Strings(lines)
+		out = append(out, tb+": "+strings.Join(lines, ""))
+	}
+	return strings.Join(out, " ; "), true
 }
 
 func c17Seed(path string) error {
@@ -168,7 +312,11 @@ func c17Dump(path string) (string, string) {
 	for _, tb := range []string{"items", "stock"} {
 		rows, err := db.Query("select id, name, qty from " + tb + " order by id, name, qty")
 		if err != nil {
-			out = append(out, tb+": <"+err.Error()+">")
+			if strings.Contains(err.Error(), "no such table") {
+				out = append(out, tb+": <dropped>")
+			} else {
+				out = append(out, tb+": <"+err.Error()+">")
+			}
 			continue
 		}
 		var lines []string
@@ -264,8 +412,16 @@ func (c17Engine) Execute(t *testing.T, c *simrun.Case, keepLog bool) *simrun.Out
 	} else {
 		out.Probe("reference_refused", 1)
 	}
+	model, modelOK := c17Model(c)
+	if modelOK {
+		out.Probe("payloads_with_independent_model", 1)
+	}
 	check := func(what string, r c17Run) {
 		ok2xx := r.status >= 200 && r.status < 300
+		if ok2xx && modelOK && r.state != model {
+			out.Fail("C17/success-but-not-all-applied", "%s: status %d, driver calls %v, fault %q ; payload %s ; tables are %s, applying every operation of the payload to the initial tables gives %s", what, r.status, r.trace, r.fired, payload, r.state, model)
+			return
+		}
 		want := P
 		if ok2xx {
 			want = E
